@@ -64,25 +64,42 @@ def inject_raw(prog_lines, hlines):
         res.append(l)
     return res
 
-def _floats_close(a, b):
+# Programs that go through libm (exp, log, pow, trig, hyperbolic, sqrt) are compared within a relative tolerance
+# (Go's math package and glibc differ in the last ulp; cancellation can amplify that, hence the absolute floor);
+# all other programs only use + - * / and comparisons in the same order as the code, so they are compared exactly.
+
+LIBM_CMDS = {'exp', 'log', 'sin', 'cos', 'tan', 'sinh', 'cosh', 'tanh', 'pow', 'std', 'var', 'stdalong', 'varalong',
+             'sigmoid', 'softmax', 'bce', 'ce', 'mse'}
+
+def uses_libm(lines):
+    for l in lines:
+        toks = l.split(' ')
+        cmd = toks[2] if len(toks) > 2 and toks[1] == '=' else toks[0]
+        if cmd in LIBM_CMDS:
+            return True
+    return False
+
+def _floats_close(a, b, exact=False):
     if math.isnan(a) or math.isnan(b):
         return math.isnan(a) and math.isnan(b)
     if math.isinf(a) or math.isinf(b):
         return a == b
+    if exact:
+        return a == b
     return abs(a - b) <= REL_TOL * max(1.0, abs(a), abs(b))
 
-def _cmp_flist(x, y):
+def _cmp_flist(x, y, exact=False):
     if x == y:
         return True
     xs, ys = x.split(','), y.split(',')
     if len(xs) != len(ys):
         return False
     try:
-        return all(_floats_close(b2f(p), b2f(q)) for p, q in zip(xs, ys))
+        return all(_floats_close(b2f(p), b2f(q), exact) for p, q in zip(xs, ys))
     except Exception:
         return False
 
-def _cmp_token(x, y):
+def _cmp_token(x, y, exact=False):
     if x == y:
         return True
     if '=' not in x or '=' not in y:
@@ -94,27 +111,27 @@ def _cmp_token(x, y):
     if kx == 'raw':
         return True
     if kx in ('data', 'v'):
-        return _cmp_flist(vx, vy)
+        return _cmp_flist(vx, vy, exact)
     if kx == 'grad':
         if vx == 'nil' or vy == 'nil':
             return vx == vy
         px, py = vx.split(';'), vy.split(';')
-        return len(px) == len(py) == 2 and px[0] == py[0] and _cmp_token(px[1], py[1])
+        return len(px) == len(py) == 2 and px[0] == py[0] and _cmp_token(px[1], py[1], exact)
     return False
 
-def cmp_line(h, d):
+def cmp_line(h, d, exact=False):
     """compare one harness outcome line with one driver outcome line"""
     ht = [t for t in h.split(' ') if not t.startswith('raw=')]
     dt = [t for t in d.split(' ') if not t.startswith('raw=')]
     if len(ht) != len(dt):
         return False
-    return all(_cmp_token(a, b) for a, b in zip(ht, dt))
+    return all(_cmp_token(a, b, exact) for a, b in zip(ht, dt))
 
-def compare(hlines, dlines):
+def compare(hlines, dlines, exact=False):
     """-> index of first differing line or None"""
     n = max(len(hlines), len(dlines))
     for i in range(n):
-        if i >= len(hlines) or i >= len(dlines) or not cmp_line(hlines[i], dlines[i]):
+        if i >= len(hlines) or i >= len(dlines) or not cmp_line(hlines[i], dlines[i], exact):
             return i
     return None
 
@@ -184,7 +201,8 @@ def run_batch(progs, race=False, env_extra=None, cmd_timeout_ms=None):
             r.note += ' driver produced no output: ' + derr[-300:]
             r.diff = 0
             continue
-        r.diff = compare(r.h, r.d)
+        r.exact = not uses_libm(r.prog.lines)
+        r.diff = compare(r.h, r.d, r.exact)
         if r.diff is not None:
             bad.append((r, dtext[res.index(r)]))
     if bad:
@@ -193,7 +211,7 @@ def run_batch(progs, race=False, env_extra=None, cmd_timeout_ms=None):
         for r, _ in bad:
             r.dm = mp.get(r.prog.name)
             if r.dm is not None:
-                r.diff_mean = compare(r.h, r.dm)
+                r.diff_mean = compare(r.h, r.dm, r.exact)
     return res
 
 def run_all(progs, shards=16, race=False, env_extra=None, cmd_timeout_ms=None):
